@@ -1,6 +1,11 @@
 HOOK_COMMITS = []
-IMPLEMENTED = {"C01", "C02", "C05", "C09", "C14", "C18"}
+IMPLEMENTED = {"C01", "C02", "C03", "C05", "C09", "C14", "C18"}
 TABLE = {
+ "C03": {
+  "technique": "exhaustive boundary-grid enumeration + random i64 timestamp pairs against max-of-contributors / newest-candidate oracles",
+  "text": "All 49 pairs of the extreme/adjacent timestamp grid are crossed with all 64 Datum operator impls (four payload types, Datum/scalar right-hand sides, assign forms), Neg/Not, latest(), the three replace helpers in every slot/candidate state and the terminal reads; random pairs (arbitrary, equal, adjacent) and the timestamp-combining streams through C02's reference with extreme timestamps. Result time must be the maximum of the contributing operands (unchanged for scalars), selections must return a candidate with none strictly newer, replace helpers must replace iff strictly newer or empty and say so.",
+  "note": "Ties in selections accept any newest candidate. Device-update timestamps are asserted in the C08/C13 checks.",
+ },
  "C02": {
   "technique": "exhaustive enumeration of input categories x timestamp orderings against a table-driven reference model, plus metamorphic relations (proptest for values/arity)",
   "text": "Every assignment of {Err(1), Err(2), None, Some} to the inputs of each of the 16 combinators (plus NoneGetter, ConstantGetter) is crossed with every weak ordering of the input timestamps, both boolean values, clock ok/err and age <,=,> limit, for f32 and Quantity payloads; the real stream's outcome (category, error identity, timestamp, bit-exact value, unit) is compared with a reference written from the rustdoc; second read == first read; Sum2/Product2 == n-ary; De Morgan duality. Exhaustive over the finite category space, values sampled.",
